@@ -203,7 +203,6 @@ func verif_SUDPProxy_Close(pxy *SUDPProxy) {
 // listed in the evidence).
 //
 //verif:getter (~/server/proxy.Proxy).GetName (~/server/proxy.Proxy).GetConfigurer (~/server/proxy.Proxy).GetUserInfo (~/server/proxy.Proxy).GetLimiter (~/server/proxy.Proxy).GetLoginMsg (~/server/proxy.Proxy).Context (~/server/proxy.Proxy).GetResourceController
-//verif:getter (~/pkg/config/v1.ProxyConfigurer).GetBaseConfig
 
 // VerifUsedPorts: the number of public ports a proxy accounts for (0 or 1).
 //
